@@ -267,6 +267,64 @@ def build_case(ctx, index, *, salt="build"):
     return found, info, project, res
 
 
+async def command_lifetime_oracle(ctx):
+    """A command runs as long as its process does: the real `run._exec_in_forkserver` (the function whose return
+    frees the job slot, the RUNNING state and the resources) must not return while the child is alive, also when
+    the child sent its outcome and then keeps working in a non-daemon thread."""
+    import asyncio
+    import multiprocessing
+    import os
+    import tempfile
+    import types
+
+    import forkchild
+    from stepup.core import run as run_mod
+
+    mp_ctx = multiprocessing.get_context("fork")
+    tmp = tempfile.mkdtemp(prefix="verif-c12life-")
+    try:
+        for i, linger in enumerate((0.0, 0.6, 1.2)):
+            marker = os.path.join(tmp, f"marker{i}")
+            pids = []
+
+            class _Run(types.SimpleNamespace):
+                def __setattr__(self, name, value):
+                    if name == "worker" and value is not None:
+                        pids.append(value.pid)
+                    super().__setattr__(name, value)
+
+            run = _Run(job_i=1, worker=None)
+            try:
+                outcome = await asyncio.wait_for(
+                    run_mod._exec_in_forkserver(mp_ctx, forkchild.leaves_a_thread, (linger, marker), run), 30)
+            except Exception as exc:  # noqa: BLE001
+                ctx.stats.count(f"command-lifetime:raises-{type(exc).__name__}")
+                continue
+            ctx.stats.count("command-lifetime")
+            ctx.stats.case(("command-lifetime", linger), nontrivial=linger > 0)
+            alive = False
+            if pids:
+                try:
+                    os.kill(pids[0], 0)
+                    alive = True
+                except ProcessLookupError:
+                    alive = False
+                except PermissionError:
+                    alive = True
+            finished = os.path.exists(marker)
+            if alive or not finished:
+                ctx.finding(Finding(PID, "command-outlives-its-job",
+                                    f"_exec_in_forkserver returned (outcome {getattr(outcome, 'returncode', outcome)!r}) while the "
+                                    f"child process was still {'alive' if alive else 'working'} (a non-daemon thread that runs for "
+                                    f"{linger}s after the outcome was sent): the job slot and the resources are released while the "
+                                    "command runs", {"linger_s": linger, "child_alive": alive, "work_finished": finished}))
+            await asyncio.sleep(linger + 0.3)  # let a stray child finish before the directory goes away
+    finally:
+        import shutil
+
+        shutil.rmtree(tmp, ignore_errors=True)
+
+
 class _SubPlan:
     """`sub.py` of `recreated_running_case`: declares X, then asks for `out/late.txt`; once that file exists
     (second execution) it declares X with the additional input."""
@@ -460,6 +518,7 @@ async def search(ctx):
     import jobloopcorr
 
     api_requirements_oracle(ctx)
+    await command_lifetime_oracle(ctx)
     await jobloopcorr.search(ctx, PID)
     await _ck.run_scenarios(ctx, lambda ctx, run_: Observer(ctx, run_), ["resource_race", "hold_recycle", "shrink_resources", "hold_running_recycled"])
     import asyncio
